@@ -278,7 +278,8 @@ def table():
         how = ", ".join("%s rc=%s %ss" % (r["tier"], r["rc"], r["wall_s"]) for r in runs)
         rows.append("| %s | %s | %s | %s | %s |" % (m["id"], "yes" if valid else "NO (%s)" % ",".join(
             k for k in ("build", "existing_tests_pass_with_change", "demo_confirmed") if not st.get(k)),
-            "DETECTED" if m.get("detected") else "missed", ", ".join(m.get("detected_by", [])), how))
+            "DETECTED" if m.get("detected") else ("equivalent after fix (see meta.json disposition)" if m.get("disposition") else "missed"),
+            ", ".join(m.get("detected_by", [])), how))
     print("| seed | valid seed | our check | failing test(s) | runs |\n|---|---|---|---|---|")
     print("\n".join(rows))
 
